@@ -125,6 +125,57 @@ fn header_bytes(c: &Value, n: i64, rng: &mut Rng, out: &mut Vec<u8>) {
     }
 }
 
+/// a group 70 object of variation v with n bytes of variable data, under a free-format header whose declared length
+/// is the object's size + delta (padding after the object / the object cut short)
+fn free_format(v: u8, n: usize, delta: i64, out: &mut Vec<u8>) {
+    let mut o: Vec<u8> = Vec::new();
+    let text: Vec<u8> = (0..n).map(|i| b'a' + (i % 26) as u8).collect();
+    let n16 = (n as u16).to_le_bytes();
+    match v {
+        2 => {
+            // user name offset, length, password offset, length, key; the user name takes n bytes, the password none
+            o.extend_from_slice(&12u16.to_le_bytes());
+            o.extend_from_slice(&n16);
+            o.extend_from_slice(&(12 + n as u16).to_le_bytes());
+            o.extend_from_slice(&0u16.to_le_bytes());
+            o.extend_from_slice(&[1, 2, 3, 4]);
+        }
+        3 => {
+            o.extend_from_slice(&26u16.to_le_bytes());
+            o.extend_from_slice(&n16);
+            o.extend_from_slice(&[1, 0, 0, 0, 0, 0]); // time of creation
+            o.extend_from_slice(&[0xFF, 0x01]); // permissions
+            o.extend_from_slice(&[0; 4]); // authentication key
+            o.extend_from_slice(&[9, 0, 0, 0]); // size
+            o.extend_from_slice(&[1, 0]); // mode
+            o.extend_from_slice(&[0, 4]); // block size
+            o.extend_from_slice(&[7, 0]); // request id
+        }
+        4 => o.extend_from_slice(&[1, 0, 0, 0, 9, 0, 0, 0, 0, 4, 7, 0, 0]),
+        5 => o.extend_from_slice(&[1, 0, 0, 0, 2, 0, 0, 0]),
+        6 => o.extend_from_slice(&[1, 0, 0, 0, 2, 0, 0, 0, 0]),
+        7 => {
+            o.extend_from_slice(&20u16.to_le_bytes());
+            o.extend_from_slice(&n16);
+            o.extend_from_slice(&[1, 0]); // type
+            o.extend_from_slice(&[9, 0, 0, 0]); // size
+            o.extend_from_slice(&[1, 0, 0, 0, 0, 0]); // time
+            o.extend_from_slice(&[0xFF, 0x01]); // permissions
+            o.extend_from_slice(&[7, 0]); // request id
+        }
+        _ => {}
+    }
+    o.extend_from_slice(&text);
+    let declared = (o.len() as i64 + delta).max(0) as usize;
+    while o.len() < declared {
+        o.push(b'z');
+    }
+    o.truncate(declared);
+    out.extend_from_slice(&[70, v, 0x5B, 1]);
+    out.extend_from_slice(&(declared as u16).to_le_bytes());
+    out.extend_from_slice(&o);
+}
+
 fn app_header(fnc: &str, out: &mut Vec<u8>) {
     match fnc {
         "read" => out.extend_from_slice(&[0xC0, 0x01]),
@@ -148,7 +199,20 @@ pub async fn run_case(sc: &Value) {
     let mut rng = Rng(0x9E3779B97F4A7C15 ^ (id + 1).wrapping_mul(0xD1342543DE82EF95) ^ sc["seed"].as_u64().unwrap_or(1));
     let mut frag = Vec::new();
     let fnc;
-    if sc.get("at").is_some() {
+    if sc.get("ff").is_some() {
+        let c = &sc["ff"];
+        fnc = c["fnc"].as_str().unwrap_or("resp").to_string();
+        app_header(&fnc, &mut frag);
+        let v = c["v"].as_u64().unwrap_or(5) as u8;
+        let n = c["n"].as_u64().unwrap_or(0) as usize;
+        free_format(v, n, c["delta"].as_i64().unwrap_or(0), &mut frag);
+        if c["follow"].as_u64().unwrap_or(0) == 1 {
+            free_format(5, 2, 0, &mut frag);
+        }
+        if c["trunc"].as_u64().unwrap_or(0) == 1 {
+            frag.pop();
+        }
+    } else if sc.get("at").is_some() {
         let a = &sc["at"];
         fnc = a["fnc"].as_str().unwrap_or("write").to_string();
         app_header(&fnc, &mut frag);
@@ -175,7 +239,7 @@ pub async fn run_case(sc: &Value) {
     let as_request = fnc != "resp";
     // the object-values level forces every lazy iterator; other levels are cycled through as well
     let mut line = serde_json::Map::new();
-    line.insert("k".into(), json!(if sc.get("at").is_some() { "attr" } else if sc.get("c1").is_some() { "pair" } else { "case" }));
+    line.insert("k".into(), json!(if sc.get("ff").is_some() { "ff" } else if sc.get("at").is_some() { "attr" } else if sc.get("c1").is_some() { "pair" } else { "case" }));
     line.insert("id".into(), json!(id));
     line.insert("len".into(), json!(frag.len()));
     let f2 = frag.clone();
